@@ -1,8 +1,8 @@
 package prometheus
 
 // C19 (collectors): traffic against scrapes.
-
 import (
+	"errors"
 	"net"
 	"net/netip"
 	"sync"
@@ -10,17 +10,18 @@ import (
 
 	"github.com/Jigsaw-Code/outline-ss-server/ipinfo"
 	"github.com/Jigsaw-Code/outline-ss-server/service/metrics"
+	"github.com/prometheus/client_golang/prometheus"
 )
 
-// a location database whose lookups take a moment (as an mmdb lookup does)
-type verifSlowDB struct{}
-
-func (verifSlowDB) GetIPInfo(ip net.IP) (ipinfo.IPInfo, error) {
-	if verifNative() {
-		time.Sleep(30 * time.Microsecond)
-	}
-	return ipinfo.IPInfo{CountryCode: "CA", ASN: ipinfo.ASN{Number: 64500, Organization: "Org"}}, nil
-}
+// keep the imports used whatever this file ends up holding
+var _ = errors.New
+var _ net.IP
+var _ netip.Addr
+var _ sync.Mutex
+var _ time.Duration
+var _ ipinfo.IPInfo
+var _ metrics.ProxyMetrics
+var _ prometheus.Metric
 
 // the first two tunnels of a client start at the same moment: both are counted, and the client
 // stays active until both are closed
@@ -55,19 +56,6 @@ func verifBody_C19_first_tunnels() {
 	verifAssert("C17.first-tunnels.active-until-last-closes", left == 1)
 	c.stopConnection(k1)
 	verifReach("C19.first-tunnels.done", true)
-}
-
-func verifPar(fs ...func()) {
-	var wg sync.WaitGroup
-	for _, f := range fs {
-		wg.Add(1)
-		f := f
-		go func() {
-			defer wg.Done()
-			f()
-		}()
-	}
-	wg.Wait()
 }
 
 func VH_C19_tunneltime() {
